@@ -73,7 +73,7 @@ def split_session(s):
     head, hs, msgs, zs = [], None, [], []
     for l in lines:
         t = l.split()
-        if t[0] in ("client", "seg"):
+        if t[0] in ("client", "seg", "adopt"):
             head.append(l)
         elif t[0] == "init":
             hs = bytes.fromhex(t[1])
@@ -247,12 +247,12 @@ def gen_cases(rng, lzo, tier):
         if msgs and len(hs) + len(msgs[0][1]) <= 90 and rng.random() < 0.5:
             total = len(hs) + len(msgs[0][1])
             for c in range(1, total, 1 if tier != "quick" else 3):
-                hd = [head[0], "seg %d,1000000" % c]
+                hd = [l for l in head if not l.startswith("seg")] + ["seg %d,1000000" % c]
                 out.append({"script": build_script(hd, "eof", hs, [msgs[0]], None), "kind": "seg", "expect_false": False, "tag": "seg:1cut"})
     return out
 
 
-def structured_cases(rng, lzo):
+def structured_cases(rng, lzo, mkjpeg=None):
     """deterministic boundary cases of the modelled guards (rect-too-large, CheckRect, caps, counts)"""
     out = []
     F = E.FMT_BY_NAME
@@ -319,6 +319,10 @@ def structured_cases(rng, lzo):
     out += length_field_cases()
     out += geometry_cases()
     out += cap_cases()
+    out += cross_encoding_cases(rng, lzo)
+    out += zero_size_cases()
+    if mkjpeg:
+        out += jpeg_cases(mkjpeg)
     return out
 
 
@@ -527,6 +531,111 @@ def cap_cases():
     return out
 
 
+def cross_encoding_cases(rng, lzo):
+    """buffers shared between decoders (raw_buffer: Zlib, Ultra, UltraZip, ZRLE, TRLE; ultra_buffer: Ultra, UltraZip):
+    every ordered pair (tiny rectangle of encoding A, then a large rectangle of raw / incompressible content of
+    encoding B, then A again) in one session -- B must grow what A allocated"""
+    out = []
+    F = E.FMT_BY_NAME
+    encs = ["zlib", "ultra", "zrle", "trle", "ultrazip"]
+    for fmt in (F["bgr233"], F["rgb565le"], F["rgb888le"]):
+        bp = fmt.bytespp
+        W, H = 64, 48
+        head = ["client %s enc=%s cursor=0 fbmode=1" % (" ".join(str(v) for v in fmt.tuple()), "+".join(e for e in encs if e != "ultrazip")), "seg 0"]
+        hs = E.handshake(F["rgb888le"], W, H, b"X")
+        for a in encs:
+            for b in encs:
+                sess = E.Session(rng, fmt, W, H, lzo=lzo)
+
+                def rect(enc, x, y, w, h, big):
+                    sess.z = []
+                    if enc == "ultrazip":
+                        plain = struct.pack(">HHHHI", x, y, w, h, 0) + bytes((i * 11 + 3) & 0x3F for i in range(w * h * bp))
+                        z = c07.lzo_literal(plain)
+                        return struct.pack(">HHHHI", 1, len(plain) % 65535, len(plain) // 65535, 0, E.ENC["ultrazip"]) + struct.pack(">I", len(z)) + z, \
+                            ["z 5 %s %s" % (hexs(z), hexs(plain))]
+                    sess.force_content = "noisefast" if big else "few"
+                    sess.force_tile = [("raw",)] * 64 if enc in ("zrle", "trle") and big else None
+                    r = sess.enc_rect(enc, x, y, w, h)
+                    return r, ["z %d %s %s" % (sid, hexs(z), hexs(pl)) for (sid, z, pl) in sess.z]
+                lines = list(head) + ["eos eof", "init " + hexs(hs)]
+                for (enc, geo, big) in ((a, (0, 0, 1, 1), False), (b, (0, 0, W, H), True), (a, (3, 2, 2, 1), False), (b, (1, 1, 17, 16), True)):
+                    r, zl = rect(enc, *geo, big)
+                    lines += zl + ["msg " + hexs(E.fbu([r]))]
+                lines += ["stats", "end"]
+                out.append({"script": "\n".join(lines) + "\n", "kind": "guard", "expect_false": False, "tag": "guard:cross-encoding:%s-%s" % (a, b)})
+    return out
+
+
+def jpeg_cases(mkjpeg):
+    """Tight JPEG rectangles whose embedded image is NOT the size of the rectangle (smaller, equal, +1, 2x+1, 4x+1,
+    8x+1, much larger), for rectangles of ordinary and of ZERO width / height, at the origin and touching every
+    edge of the framebuffer: whatever the image says, nothing may be written outside the framebuffer (guard bands)"""
+    out = []
+    F = E.FMT_BY_NAME
+    W, H = 64, 64
+    imgs = [(8, 8), (15, 15), (16, 16), (17, 17), (16, 17), (17, 16), (32, 32), (33, 33), (16, 33), (33, 16), (65, 65), (128, 128), (129, 129),
+            (160, 160), (1, 1), (64, 65)]
+    for fmt in (F["rgb888le"], F["rgb565le"], F["rgb888be"]):
+        head = ["client %s enc=tight cursor=0 fbmode=2" % " ".join(str(v) for v in fmt.tuple()), "seg 0"]
+        hs = E.handshake(F["rgb888le"], W, H, b"J")
+        for (rw, rh) in [(16, 16), (0, 0), (0, 16), (16, 0), (1, 1), (64, 64), (17, 3)]:
+            poss = {(0, 0), (W - rw, H - rh), (W - rw, 0), (0, H - rh), (W - rw - (1 if rw < W else 0), H - rh)}
+            for (x, y) in sorted(poss):
+                for (iw, ih) in imgs:
+                    if fmt is not F["rgb888le"] and (iw, ih) in ((15, 15), (32, 32), (128, 128), (1, 1), (16, 17), (17, 16)):
+                        continue
+                    j = mkjpeg(iw, ih)
+                    m = E.fbu([struct.pack(">HHHHI", x, y, rw, rh, 7) + bytes([0x90]) + E.compact_len(len(j)) + j]) + b"\x02"
+                    out.append({"script": build_script(head, "eof", hs, [], m), "kind": "guard", "expect_false": None,
+                                "tag": "guard:jpeg-size:%dx%d" % (rw, rh) if rw * rh else "guard:jpeg-zero-rect"})
+    return out
+
+
+def zero_size_cases():
+    """rectangles of zero width / zero height / 0x0 for EVERY encoding, at the origin, at the far corner (x = W, y = H)
+    and on the last row / column, each with a plausible payload and followed by a Bell"""
+    out = []
+    F = E.FMT_BY_NAME
+    W, H = 20, 10
+    for fmt in (F["bgr233"], F["rgb565le"], F["rgb888le"]):
+        bp = fmt.bytespp
+        head = ["client %s enc=raw+copyrect+rre+corre+hextile+zlib+tight+ultra+trle+zrle cursor=1 fbmode=2" % " ".join(str(v) for v in fmt.tuple()), "seg 0"]
+        hs = E.handshake(F["rgb888le"], W, H, b"Z")
+        px = bytes([0x15]) * bp
+        zempty = zlib.compress(b"")
+        zc = zlib.compressobj(1)
+        zsync = zc.compress(b"") + zc.flush(zlib.Z_SYNC_FLUSH)
+        lz = c07.lzo_literal(b"")
+        tp = fmt.tpixel(px) if hasattr(fmt, "tpixel") else px
+        payloads = {
+            0: [b""], 1: [struct.pack(">HH", 0, 0), struct.pack(">HH", W - 1, H - 1)],
+            2: [struct.pack(">I", 0) + px, struct.pack(">I", 1) + px + px + struct.pack(">HHHH", 0, 0, 1, 1)],
+            4: [struct.pack(">I", 0) + px, struct.pack(">I", 1) + px + px + bytes([0, 0, 1, 1])],
+            5: [b"", bytes([0x02]) + px],
+            6: [struct.pack(">I", 0), struct.pack(">I", len(zsync)) + zsync, struct.pack(">I", len(zempty)) + zempty],
+            7: [bytes([0x80]) + tp, bytes([0x00]), bytes([0x40, 0x01, 0x01]) + tp + tp, bytes([0x40, 0x02]), bytes([0x00]) + b"\x00" * 4],
+            9: [struct.pack(">I", 0), struct.pack(">I", len(lz)) + lz],
+            15: [b"", bytes([1]) + fmt.cpixel(px)],
+            16: [struct.pack(">I", 0), struct.pack(">I", len(zsync)) + zsync, struct.pack(">I", len(zempty)) + zempty],
+            E.ENC["richcursor"]: [b""], E.ENC["xcursor"]: [b""],
+        }
+        for (w, h) in [(0, 0), (0, 3), (3, 0), (0, H), (W, 0)]:
+            for (x, y) in [(0, 0), (W, H), (W - w, H - h), (W, 0), (0, H), (W - 1, H - 1)]:
+                for enc, pls in payloads.items():
+                    for pl in pls:
+                        zl = []
+                        if enc in (6, 16) and len(pl) > 4:
+                            # a sync-flushed empty block inflates to nothing; a FINISHED stream (Z_STREAM_END) is refused
+                            zl = ["z %d %s -" % ((4 if enc == 6 else 6) + (100 if pl[4:] == zempty else 0), hexs(pl[4:]))]
+                        if enc == 9 and len(pl) > 4:
+                            zl = ["z 5 %s -" % hexs(pl[4:])]
+                        m = E.fbu([struct.pack(">HHHHI", x, y, w, h, enc) + pl]) + b"\x02"
+                        out.append({"script": build_script(head, "eof", hs, [], m, zlines=zl), "kind": "guard", "expect_false": None,
+                                    "tag": "guard:zero-size:%d" % (enc if enc < 100 else 99)})
+    return out
+
+
 def handshake_cases():
     """hostile 3.7/3.8 handshakes: security-type lists of EVERY count 0..255 without a single usable
     type (the library must log and return FALSE), failure reasons of many lengths"""
@@ -727,7 +836,14 @@ def run(ctx):
                 rec = json.load(open(os.path.join(cdir, f)))
                 cases.append({"script": "\n".join(rec["script"]) + "\n", "kind": "corpus", "expect_false": None,
                               "tag": "corpus:" + f, "finding": rec.get("finding")})
-        cases += structured_cases(ctx.rng, lzo)
+        jcache = {}
+
+        def mkjpeg(w, hh):
+            if (w, hh) not in jcache:
+                rc, o, err = ctx.run_lines(h, "jpegrgb %d %d 90 %s\n" % (w, hh, c07.jpeg_image(w, hh).hex()), env={"ASAN_OPTIONS": "detect_leaks=0"})
+                jcache[(w, hh)] = bytes.fromhex(o[0])
+            return jcache[(w, hh)]
+        cases += structured_cases(ctx.rng, lzo, mkjpeg)
         cases += gen_cases(ctx.rng, lzo, ctx.tier)
     lzo.close()
     res = common.pmap(lambda c: judge(ctx, c, h, d), cases)
